@@ -27,9 +27,12 @@ Forms == {
   [id |-> 13, txt |-> "f ~ x",               resp |-> "f", icpt |-> TRUE,  terms |-> << <<"x">> >>, groups |-> <<>>],
   [id |-> 14, txt |-> "x:f + f",             resp |-> "",  icpt |-> TRUE,  terms |-> << <<"x", "f">>, <<"f">> >>, groups |-> <<>>],
   [id |-> 15, txt |-> "y ~ f/g",             resp |-> "y", icpt |-> TRUE,  terms |-> << <<"f">>, <<"f", "g">> >>, groups |-> <<>>],
+  [id |-> 17, txt |-> "f[@2] ~ x",           resp |-> "f", sub |-> 2, icpt |-> TRUE, terms |-> << <<"x">> >>, groups |-> <<>>],
+  [id |-> 18, txt |-> "f[@9] ~ x + g",       resp |-> "f", sub |-> 9, icpt |-> TRUE, terms |-> << <<"x">>, <<"g">> >>, groups |-> <<>>],
   [id |-> 16, txt |-> "y ~ (1|g) + (x|f)",   resp |-> "y", icpt |-> TRUE,  terms |-> <<>>, groups |-> << [e |-> <<>>, g |-> <<"g">>], [e |-> <<>>, g |-> <<"f">>], [e |-> <<"x">>, g |-> <<"f">>] >>]
 }
 \* formula 14: the scanner's implicit intercept; x:f with margin x absent and f present
+\* formulas 17, 18: subset notation; @k stands for the name of level k of f (9: a level that never occurs)
 \* formula 15: g nested in f (f full inside f:g, g reduced); formula 16: group terms of two different
 \* factors, so that a new group of g shifts the slices of the terms of f
 
